@@ -21,13 +21,13 @@ C = {
          "Decides structural necessary conditions of termination / abort-freedom: progress witness on every cycle path of every parser/lexer/consolidator loop (closures and combinator parameters resolved, reviewed exceptions re-verified), every panic-capable site auto-verified or in a reviewed inventory keyed by canonical operands, search cut-off with fallback, recursion inventory (7 known findings: stack exhaustion), lexer dispatch totality, memoisation of the wrapper's recursion into child lines (a necessary condition of the polynomial-time clause). Six genuine defects were found with these rules and fixed. No running-time bound, no well-foundedness proof.",
          "Not decided: polynomial time; number of conditional-directive passes; the 150 reviewed (not re-derived) invariants; add/mul overflow asserts."),
  "C06": ("static analysis: information-flow inventory (closed who-reads sets over MIR places and accessor calls)",
-         "Decides one necessary condition of layout independence: the complete inventory of program points that can observe the input's layout equals the reviewed set (the three facts the property allows, the whitespace-to-counts reduction, emission, cursor code), every decision of a solved line overwrites the inherited counters, and the spacing table decides every gap: for every (previous kind, next kind) someone sets the space between them. The two-run relation itself is not decided.",
+         "Decides one necessary condition of layout independence: the complete inventory of program points that can observe the input's layout equals the reviewed set (the three facts the property allows, the whitespace-to-counts reduction, emission, cursor code), every decision of a solved line overwrites the inherited counters, the spacing table decides every gap (for every (previous kind, next kind) someone sets the space between them), where the spacing rule still looks at a raw gap a line break counts like a blank, the emission step reads original whitespace only for ignored tokens, and the parser's current line is Unknown-typed whenever finish_logical_line returns (an ignorable line type cannot leak to the tokens parsed next). The two-run relation itself is not decided.",
          "Not decided: lines without a wrapping solution keep input counters; that allowed readers pass no more than the allowed fact."),
  "C07": ("static analysis: decision table of the single mutable-token door, who-writes rules, dominance / loop-shape rules on MIR",
          "Decides structural clauses of verbatim regions: ignored tokens cannot be obtained mutably (single door, Err iff ignored), marks are never removed and reach FormattedTokens before any formatter, the ignored emission arm copies the original whitespace and nothing else, asm lines fully marked and skipped by the wrapper, whole-line voiding requires all tokens ignored, the toggle scan visits every token and flips only on exact on/off, every logical line finished while parsing asm instructions is typed AsmInstruction on every path. Region extent as a function of comment text is not decided.",
          "Not decided: value-level boundaries of regions beyond the recognised constants."),
  "C08": ("static analysis: ORDER/AGREE rules, closed value sets of stores (origin sets), decision tables",
-         "Decides emission order and counter/string pairing, the closed sets of values that can be stored into the whitespace counters (0, 1, clamp(old,1,2), min(old,1)), line-start and first-token space zeroing, the end-of-file rule and its selection, and the construction of indentation strings. Cleanliness of lines left unwrapped is input-dependent and not decided.",
+         "Decides emission order and counter/string pairing, the closed sets of values that can be stored into the whitespace counters (0, 1, clamp(old,1,2), min(old,1)), line-start and first-token space zeroing as the last writer on every path, the end-of-file rule and its selection, the construction of indentation strings, that line comments end without blanks on every path, and that the spacing table decides every gap. Cleanliness of lines left unwrapped is input-dependent and not decided.",
          "Not decided: tokens of lines for which no wrapping was found; voided lines."),
  "C09": ("static analysis: sink-based constant-flow rule, non-interference of the newline string (uses restricted to push/len), decision tables",
          "Decides that the only CR/LF text that can reach the output is the literal paired with the configured LineEnding, that no other CR/LF literal is appended anywhere, that the newline string is only emitted or measured, that cached token lengths are refreshed after the string rewrite and that whole-token lengths never measure a multi-line token (so crlf output = lf output with terminators substituted, as far as decisions are concerned), and that every line-end test of the lexer treats CR and LF alike (necessary for CRLF input = LF input). The two-run equivalences themselves are not decided.",
@@ -36,7 +36,7 @@ C = {
          "Decides that the indentation options are interpreted at one conversion site with the documented table, that measuring, re-indenting and emitting use the same settings value and pair each counter with its own string (emitters may only append the configured strings, which are reachable only through their getters). The replacement relation between two runs is not decided.",
          "Not decided: the tab<->space relation between two runs."),
  "C11": ("static analysis: who-reads inventory and use-site classification of one field",
-         "Decides that wrap_column reaches the wrapper only as max_line_length (its single use in the conversion), is used only in `length > max` and in the guarded excess, and that what is compared with it is measured independently of the configured newline with multi-line tokens counted by their last line. Monotonicity between two widths is not decided.",
+         "Decides that wrap_column reaches the wrapper only as max_line_length (its single use in the conversion), is used only in `length > max` and in the guarded excess, that what is compared with it is measured independently of the configured newline with multi-line tokens counted by their last line, that a rewrite of any literal of a line is reported to the re-flow (the flag accumulates), and that memoised child-line solutions are not carried across the rewrite (1 known finding). Monotonicity between two widths is not decided.",
          "Not decided: relations between two runs with different widths."),
  "C12": ("static analysis: dominance guards, loop skip-discipline (must-pass-through), provenance (origin sets), AGREE of terminator sets",
          "Decides when rewriting may happen (enabled, un-ignored MultiLine literal, successful and different rewrite, own content and counters), that an interior line can be left out only when blank, provenance of everything appended (closed mutator set), agreement of the terminator sets and the splitter automaton, and that the re-indenter writes with the same settings value the reconstructor emits with. Per-line value preservation is not decided.",
